@@ -1,3 +1,88 @@
-From Bfe Require Import lib.Val model.CondPrim run.RunC18.
-Theorem C18_tmp : True. Proof. exact I. Qed.
-Print Assumptions C18_tmp.
+(* C18: condition primitives implement their documented matching.  Property theorems only.
+   Model: coq/model/CondPrim.v -- fetchers and matchers of primitive.go; buildPrimitive is interpreted over the
+   wiring table coq/gen/CondProtos.v regenerated from build.go on every run.  Documentation side: string_specs /
+   spec_match in the same file, written from docs/en_us/condition/**.  External functions (regexp, net.ParseIP,
+   murmur3, time parsing) are the fields of [ext], universally quantified.  Fold-case is ASCII. *)
+From Coq Require Import List ZArith Bool.
+From Bfe Require Import lib.Val lib.Bytes gen.CondProtos model.CondParse model.CondPrim proofs.CondPrimProofs run.RunC18.
+Import ListNotations.
+Open Scope Z_scope.
+
+(* Table theorem: each of the 37 documented string primitives (host/path/url/ua/query/cookie/header/response/
+   tls/context families) is wired by buildPrimitive to the fetcher of its documented attribute and to the matcher
+   constructor of its documented test, with the documented argument positions and case-insensitivity flag. *)
+Theorem C18_wiring_matches_doc : forallb srow_compat string_specs = true.
+Proof. exact string_specs_compat. Qed.
+Print Assumptions C18_wiring_matches_doc.
+
+(* For every external-function record x, every documented string primitive name, every argument list that Build
+   accepts, and every request r outside known-finding class 1: Match returns exactly the documented verdict --
+   exact / one-of / prefix / suffix / substring / path-element-prefix / regexp / hash-bucket test with the documented
+   case handling on the documented attribute, and false when the attribute is missing. *)
+Theorem C18_string_primitives_meet_doc : forall x name args r c s,
+  lookup name string_specs = Some s -> build_call x name args = Some c -> kf1 x name args r = false ->
+  spec_match x name args r = Some (cond_match x c r).
+Proof. exact string_prims_meet_spec. Qed.
+Print Assumptions C18_string_primitives_meet_doc.
+
+(* The matcher lemmas behind it: the code upper-cases both sides, the documentation says "case insensitive". *)
+Theorem C18_in_spec : forall f pats v,
+  mem_bytes (fold_up f v) (map (fold_up f) pats) = existsb (fun p => ci_eq f p v) pats.
+Proof. exact in_spec. Qed.
+Print Assumptions C18_in_spec.
+Theorem C18_prefix_spec : forall f pats v,
+  existsb (fun p => is_prefix p (fold_up f v)) (map (fold_up f) pats) = existsb (fun p => is_prefix (ci f p) (ci f v)) pats.
+Proof. exact prefix_spec. Qed.
+Theorem C18_suffix_spec : forall f pats v,
+  existsb (fun p => is_suffix p (fold_up f v)) (map (fold_up f) pats) = existsb (fun p => is_suffix (ci f p) (ci f v)) pats.
+Proof. exact suffix_spec. Qed.
+Theorem C18_contain_spec : forall f pats v,
+  existsb (fun p => contains p (fold_up f v)) (map (fold_up f) pats) = existsb (fun p => contains (ci f p) (ci f v)) pats.
+Proof. exact contain_spec. Qed.
+Theorem C18_path_element_spec : forall f pats v,
+  existsb (fun p => is_prefix p (fold_up f (add_slash v))) (map (fun q => fold_up f (add_slash q)) pats)
+  = existsb (fun p => is_prefix (ci f (add_slash p)) (ci f (add_slash v))) pats.
+Proof. exact pathelem_spec. Qed.
+Print Assumptions C18_path_element_spec.
+
+(* "A missing attribute makes the primitive false": full statement
+     forall x name args r c, build_call x name args = Some c -> attr_missing name args r = true -> cond_match x c r = false
+   is FALSE of the code (C18_missing_false_refuted); proved with the guard that excludes exactly finding class 1
+   (header / query value and User-Agent primitives whose test accepts the empty string). *)
+Theorem C18_missing_false_partial : forall x name args r c,
+  build_call x name args = Some c -> attr_missing name args r = true -> kf1 x name args r = false ->
+  cond_match x c r = false.
+Proof. exact missing_false_partial. Qed.
+Print Assumptions C18_missing_false_partial.
+Theorem C18_missing_false_refuted : exists x name args r c,
+  build_call x name args = Some c /\ attr_missing name args r = true /\ cond_match x c r = true.
+Proof. exact missing_refuted. Qed.
+Print Assumptions C18_missing_false_refuted.
+
+(* ALL 56 primitives (the 37 string primitives above and default_t, req_cip_trusted, req_proto_secure,
+   req_query_exist, ses_tls_client_auth, the four IP ranges, req_vip_in, req_cip_hash_in, the five *_key_in /
+   key_prefix_in primitives, req_tag_match and the two time ranges): for all external functions x, every call that
+   Build accepts and every request outside finding classes 1 and 2, Match returns the documented verdict doc_match
+   (inclusive IP ranges on the 16-byte form, hash bucket membership, key presence, tag name before ':', inclusive
+   time windows in the pattern's zone; false when the inspected address / response / TLS state is missing). *)
+Theorem C18_model_meets_doc : forall x name args r c,
+  build_call x name args = Some c -> kf1 x name args r = false -> kf2 name args r = false ->
+  doc_match x name args r = Some (cond_match x c r).
+Proof. exact model_meets_doc. Qed.
+Print Assumptions C18_model_meets_doc.
+
+(* Every implementation observation that agrees with the model satisfies the executable property outside the
+   listed finding classes. *)
+Theorem C18_agree_implies_prop : forall i o, agree_C18 i o = true -> kf_C18 i = 0 -> prop_C18 i o = true.
+Proof. exact agree_implies_prop_C18. Qed.
+Print Assumptions C18_agree_implies_prop.
+
+(* Non-vacuity *)
+Example C18_ex_host : forall x,
+  option_map (fun c => cond_match x c {| r_host := [69;120;46;99;111;109;58;56;48]; r_hosttag := []; r_secure := false;
+     r_sproto := []; r_hproto := []; r_method := []; r_tags := None; r_uri := []; r_path := []; r_query := [];
+     r_cookies := []; r_headers := []; r_resp := None; r_cip := None; r_sip := None; r_vip := None; r_trusted := false;
+     r_tls := None; r_context := None |})
+    (build_call x (* req_host_in *) [114;101;113;95;104;111;115;116;95;105;110] [(1, (* "a|ex.COM" *) [97;124;101;120;46;67;79;77])])
+  = Some true.
+Proof. intros x. vm_compute. reflexivity. Qed.
